@@ -38,11 +38,44 @@ func elRead(m *enterleavesensorpb.Model) elState {
 	return elState{Enter: optIntOf(e.EnterTotal), Leave: optIntOf(e.LeaveTotal)}
 }
 
+// relTotal: a supplied total given relative to the model's counter when the event is sent
+type relTotal struct {
+	How string `json:"how"` // absent | current | current+1 | current-1 | far | abs
+	V   int    `json:"v"`
+}
+
+func (r relTotal) resolve(cur optInt) optInt {
+	c := 0
+	if cur.Has {
+		c = cur.V
+	}
+	switch r.How {
+	case "absent":
+		return optInt{}
+	case "current":
+		return optInt{Has: true, V: c}
+	case "current+1":
+		return optInt{Has: true, V: c + 1}
+	case "current-1":
+		if c == 0 {
+			return optInt{Has: true, V: 0}
+		}
+		return optInt{Has: true, V: c - 1}
+	case "far":
+		return optInt{Has: true, V: c + 7}
+	case "abs":
+		return optInt{Has: true, V: r.V}
+	}
+	hx.Fatal("enterleave: unknown total kind %q", r.How)
+	return optInt{}
+}
+
 type elOp struct {
-	Op  string `json:"op"`
-	Dir string `json:"dir"`
-	Se  optInt `json:"se"`
-	Sl  optInt `json:"sl"`
+	Op   string   `json:"op"`
+	Dir  string   `json:"dir"`
+	Echo bool     `json:"echo"`
+	Se   relTotal `json:"se"`
+	Sl   relTotal `json:"sl"`
 }
 type elWalk struct {
 	N   int `json:"n"`
@@ -59,6 +92,7 @@ type elObs struct {
 	Op      string  `json:"op"`
 	HasInit bool    `json:"hasInit"`
 	Dir     string  `json:"dir"`
+	How     string  `json:"how"` // how the totals were drawn: "echo" or "<enter kind>/<leave kind>"
 	Se      optInt  `json:"se"`
 	Sl      optInt  `json:"sl"`
 	Pre     elState `json:"pre"`
@@ -88,9 +122,19 @@ func runEnterLeave(raw json.RawMessage, out *hx.Out) {
 		return
 	}
 	for i, op := range w.Ops {
-		o := elObs{Model: "enterleave", Walk: w.N, Step: i + 1, Op: op.Op, HasInit: w.Cfg.HasInit, Dir: op.Dir,
-			Se: op.Se, Sl: op.Sl, Err: "OK"}
+		o := elObs{Model: "enterleave", Walk: w.N, Step: i + 1, Op: op.Op, HasInit: w.Cfg.HasInit, Dir: op.Dir, Err: "OK"}
 		o.Pre = elRead(m)
+		event := &traits.EnterLeaveEvent{Occupant: &traits.EnterLeaveEvent_Occupant{Name: "someone"}}
+		if op.Op == "Event" {
+			if op.Echo { // the last event read, with only the direction set
+				event, _ = m.GetEnterLeaveEvent()
+				o.How = "echo"
+			} else {
+				event.EnterTotal, event.LeaveTotal = concOptInt(op.Se.resolve(o.Pre.Enter)), concOptInt(op.Sl.resolve(o.Pre.Leave))
+				o.How = op.Se.How + "/" + op.Sl.How
+			}
+			o.Se, o.Sl = optIntOf(event.EnterTotal), optIntOf(event.LeaveTotal) // what the event actually carries
+		}
 		o.Panic = hx.Catch(func() {
 			switch op.Op {
 			case "Event":
@@ -98,10 +142,8 @@ func runEnterLeave(raw json.RawMessage, out *hx.Out) {
 				if !ok {
 					hx.Fatal("enterleave: unknown direction %q", op.Dir)
 				}
-				o.Err = hx.Code(m.CreateEnterLeaveEvent(&traits.EnterLeaveEvent{
-					Direction:  traits.EnterLeaveEvent_Direction(dir),
-					Occupant:   &traits.EnterLeaveEvent_Occupant{Name: "someone"},
-					EnterTotal: concOptInt(op.Se), LeaveTotal: concOptInt(op.Sl)}))
+				event.Direction = traits.EnterLeaveEvent_Direction(dir)
+				o.Err = hx.Code(m.CreateEnterLeaveEvent(event))
 			case "Reset":
 				o.Err = hx.Code(m.ResetTotals())
 			default:
